@@ -369,11 +369,18 @@ func (f *FProc) auxKey() string {
 }
 
 // Run serves shutdown commands and exec probes (both built with a context).
+// The first thing it does is park: goroutines of un-instrumented third-party
+// code (go-health tickers) that wake at the same virtual instant must not do
+// anything observable before the scheduler has ordered them.
 func (f *FProc) Run() error {
 	w := f.w
+	key := ""
+	if a := f.cmd.Args; len(a) > 0 {
+		key = a[len(a)-1]
+	}
+	vrt.Point(&vrt.Op{Kind: "aux", Tag: key, Env: w.sc.AuxAsEnv})
 	w.mu.Lock()
 	f.capture()
-	key := f.auxKey()
 	f.Key = "aux:" + key
 	n := w.auxCalls[key]
 	w.auxCalls[key]++
@@ -382,8 +389,6 @@ func (f *FProc) Run() error {
 	w.auxLog = append(w.auxLog, f)
 	w.mu.Unlock()
 	ctx := cmdCtx(f.cmd)
-	// the answer is an environment event
-	vrt.Point(&vrt.Op{Kind: "aux", Tag: key, Env: true})
 	if ctx != nil && ctx.Err() != nil {
 		w.event(Event{Kind: "aux-ans", Proc: f.Key, Inst: n, Data: "ctx-expired"})
 		f.code = -1
@@ -399,7 +404,7 @@ func (f *FProc) Run() error {
 		return nil
 	case outcome == "hang":
 		if ctx == nil {
-			panic("fakeos: hanging aux command without context: " + key)
+			panic("harness: hanging aux command without context: " + key)
 		}
 		<-ctx.Done()
 		vrt.Yield("aux-killed")
@@ -416,6 +421,7 @@ func (f *FProc) Run() error {
 // Output serves env_cmds.
 func (f *FProc) Output() ([]byte, error) {
 	w := f.w
+	vrt.Yield("envcmd")
 	w.mu.Lock()
 	defer w.mu.Unlock()
 	f.capture()
